@@ -126,7 +126,7 @@ class Sim(object):
             ks.append(k)
             shape = weighted(rng, [("closed", 4), ("any", 2), ("fast", 1), ("regular", 1 if self.prop == "C17" else 0.2),
                                    ("empty", 0.3 if self.prop == "C17" else 0.05), ("dag", 0.4 if self.prop == "C17" else 0.1),
-                                   ("doc", 0.5)])
+                                   ("doc", 0.5), ("hub", 1.2 if self.prop == "C17" else 0.3)])
             if shape == "regular":
                 if rng.random() < 0.4:
                     arcs = G.rows_to_arcs(G.regular_dangling_rows(rng, k, rng.randint(1, 3)))
@@ -134,6 +134,8 @@ class Sim(object):
                     arcs = G.rows_to_arcs(G.regular_norepeat_rows(rng, k, rng.randint(1, 3)))
                 else:
                     arcs = G.rows_to_arcs(G.regular_closed_rows(rng, k, rng.randint(1, 4)))
+            elif shape == "hub":
+                arcs = G.rows_to_arcs(G.hub_rows(rng, k, rng.choice([0, 0, 4 ** k - 1])))
             elif shape == "empty":
                 arcs = "0" * (4 ** (k + 1))
             elif shape == "dag":
